@@ -2,8 +2,9 @@
    `expand` is the model of _expand_decay_modes on a chain dictionary (any chain dictionary, in
    particular the ones `build` of C09 produces); `vpath` is the specification of a complete decay
    path; `paths` its enumeration; `count` the sum-of-products formula. *)
-From Coq Require Import String List Bool ZArith QArith Arith.
-From DL Require Import Lib.Val Lib.PyDict Lib.Sort Fmt.DescFormat Decay.ChainDict Decay.ExpandProofs.
+From Coq Require Import String List Bool ZArith QArith Arith Lia.
+From DL Require Import Lib.Val Lib.PyDict Lib.Sort Fmt.DescFormat Decay.ChainDict Decay.ExpandProofs Dec.Tables Dec.ChainsProofs Dec.Syntax Dec.Post
+  Dec.Layout Dec.ItemParser Dec.FrontEnd Dec.LayoutProofs Dec.ItemParserProofs Dec.FrontEndProofs Dec.Whole Dec.Pipeline Gen.GenLayout.
 Import ListNotations.
 Close Scope Q_scope.
 Open Scope string_scope.
@@ -36,3 +37,37 @@ Definition exC : cdict :=
 Example C10_example :
   expand default_cfg [("X", "x0")] true exC = ["M -> (x0 -> a b) S"; "M -> (x0 -> c) S"; "M -> y"] /\ count exC = 3.
 Proof. vm_compute. split; reflexivity. Qed.
+
+(* THE WHOLE PIPELINE, from the text to the descriptor list (Dec/Pipeline.v: front end, parse(), build_decay_chains,
+   expand_decay_modes).  s is any spelling of any layout of the statement list f, T the tables parse() makes of it (acyclic), m a
+   mother with a table.  The list returned for m is, in order, the rendering of the complete decay paths through the
+   unfolding c of T at m — each once, their number given by the sum-of-products formula, aliases of f shown as the
+   particle they alias. *)
+Theorem C10_text_level : forall ccdb sc f its s T rank m,
+  file_items (lc_kind gen_cfg) (lc_alts gen_cfg) f its -> spell (lc_label gen_cfg) (lc_ws gen_cfg) its s ->
+  parse_post ccdb sc true f = inl T -> acyclic T [] rank -> find_table m T <> None ->
+  exists c, unfolds T [] m c /\
+            text_descriptors ccdb sc (rank m + 2) s m
+            = vstrs (map (render_path default_cfg (aliases_of f) true) (paths c)) /\
+            NoDup (paths c) /\ (forall t, In t (paths c) <-> vpath c t) /\ length (paths c) = count c.
+Proof.
+  intros ccdb sc f its s T rank m F Sp HT Hac Hf.
+  assert (Er : read_dec ccdb sc s = Some (f, T)).
+  { unfold read_dec. rewrite (parse_text_layout gen_cfg f its s whole_photos_plain F Sp), HT. reflexivity. }
+  pose proof (build_terminates T [] rank Hac (rank m + 2) m ltac:(lia)) as Ht.
+  destruct (build (rank m + 2) T [] m) as [[c|]|] eqn:E; [| |congruence].
+  - exists c. split; [exact (build_sound T [] _ _ _ E)|]. split.
+    + unfold text_descriptors. rewrite Er, E, expand_paths. reflexivity.
+    + split; [apply paths_nodup|]. split; [intro t; apply in_paths_iff | apply paths_count].
+  - exfalso. replace (rank m + 2) with (Datatypes.S (rank m + 1)) in E by lia. apply build_not_found in E. contradiction.
+Qed.
+Print Assumptions C10_text_level.
+
+(* non-vacuity: an actual text (an alias, a comment, CR LF, a wrapped parameter list) through the whole pipeline *)
+Example C10_pipeline_example :
+  let nl := String LF "" in
+  show (text_descriptors (fun n => n) (fun _ => None) 10
+    ("Alias MyD0 D0" ++ String CR nl ++ "Decay D*+  # two lines" ++ nl ++ "0.7 MyD0 pi+ VSS;" ++ nl ++ "0.3 D+ pi0 HELAMP 1.0" ++ nl ++ " 0.0;" ++ nl ++
+     "Enddecay" ++ nl ++ "Decay MyD0" ++ nl ++ "0.5 K- pi+ PHSP;" ++ nl ++ "0.5 K- pi+ pi0 PHSP;" ++ nl ++ "Enddecay" ++ nl ++ "End" ++ nl) "D*+")
+  = show (vstrs ["D*+ -> (D0 -> K- pi+) pi+"; "D*+ -> (D0 -> K- pi+ pi0) pi+"; "D*+ -> D+ pi0"]).
+Proof. vm_compute. reflexivity. Qed.
